@@ -335,3 +335,61 @@ theorem invC_fold (combine : Nat → Word → Nat) (u0 : List W) (hu : UniOK u0)
     exact h2'
 
 end KV.ProbingBuild
+
+namespace KV.ProbingBuild
+open KV.Arpa KV.Table KV.Score KV.ProbingLM
+
+/-- the n-gram lines of orders ≥ 2 in file order -/
+def ngramLines (a : Arpa) : List Line := a.entries.filter fun p => p.1.length ≥ 2
+
+def capOf (buckets : List Nat) (m : Nat) : Nat := buckets.getD (m - 2) 1
+
+def initSt (a : Arpa) (nWords : Nat) (buckets : List Nat) : St :=
+  { uni := initUni a nWords,
+    mid := (List.range (a.order - 2)).map (fun i => emptyOrd (buckets.getD i 1)),
+    longest := emptyOrd (buckets.getD (a.order - 2) 1) }
+
+/-- **The builder on a model without blanks**: it returns `.ok`, and every table / the unigram array are
+characterised by `InvC` (each order's table holds exactly that order's lines under the C20 invariant, sign bits =
+"some line ends in it", extension bits = "non-zero back-off or some line starts with it"). -/
+theorem build_closed_inv (combine : Nat → Word → Nat) (a : Arpa) (nWords : Nat) (buckets : List Nat) (unkMissing : Rat)
+    (hN : 2 ≤ a.order) (hu : UniOK (initUni a nWords))
+    (hsorted : (ngramLines a).Pairwise (fun p q => p.1.length ≤ q.1.length))
+    (hnd : ((ngramLines a).map (fun p => hashOf combine p.1)).Nodup)
+    (hlen : ∀ p ∈ ngramLines a, p.1.length ≤ a.order)
+    (hcaps : ∀ m, (linesOf (ngramLines a) m).length < capOf buckets m)
+    (hbi : ∀ p ∈ ngramLines a, p.1.length = 2 → ∃ x y, p.1 = [x, y] ∧ x < nWords ∧ y < nWords)
+    (hcl : ∀ p ∈ ngramLines a, 3 ≤ p.1.length →
+      (∃ q ∈ ngramLines a, q.1 = p.1.take (p.1.length - 1)) ∧ (∃ q ∈ ngramLines a, q.1 = p.1.drop 1)) :
+    ∃ s, build combine false a nWords buckets unkMissing = .ok (fixUnk a unkMissing s) ∧
+      InvC combine (initUni a nWords) a.order (capOf buckets) (ngramLines a) s := by
+  have hul : (initUni a nWords).length = nWords := by simp [initUni]
+  have inv0 : InvC combine (initUni a nWords) a.order (capOf buckets) [] (initSt a nWords buckets) := by
+    refine ⟨by simp [initSt], ⟨rfl, fun w => by simp [initSt, expW, endsIn, startsWith]⟩, ?_⟩
+    intro m h2 hmN
+    have hc : 0 < capOf buckets m := by have := hcaps m; omega
+    refine ⟨fun _ => none, ?_⟩
+    have : tbl a.order (initSt a nWords buckets) m = emptyOrd (capOf buckets m) := by
+      unfold tbl capOf initSt
+      by_cases hm : m = a.order
+      · simp [hm]
+      · have hlt : m - 2 < a.order - 2 := by omega
+        simp only [hm, if_false]
+        rw [List.getD_eq_getElem?_getD, List.getElem?_map, List.getElem?_range hlt]
+        rfl
+    rw [this]
+    exact ordSem_empty combine m _ hc
+  obtain ⟨s, hf, inv⟩ := invC_fold combine (initUni a nWords) hu a.order (capOf buckets) (ngramLines a) [] _ inv0
+    (by simpa using hsorted) (by simpa using hnd)
+    (fun p hp => ⟨by simp [ngramLines] at hp; exact hp.2, hlen p hp⟩) (by simpa using hcaps)
+    (fun p hp h2 => by obtain ⟨x, y, h1, hx, hy⟩ := hbi p hp h2; exact ⟨x, y, h1, by rw [hul]; exact hx, by rw [hul]; exact hy⟩)
+    (by simpa using hcl)
+  refine ⟨s, ?_, by simpa using inv⟩
+  unfold build
+  simp only [bind, Except.bind]
+  have hf' : List.foldlM (fun s p => addLine combine false a.order s p.1 p.2) (initSt a nWords buckets)
+      (a.entries.filter fun p => p.1.length ≥ 2) = .ok s := hf
+  unfold initSt at hf'
+  rw [hf']
+
+end KV.ProbingBuild
